@@ -169,6 +169,8 @@ structure RegWF (descs : List Desc) : Prop where
   voidAlone : ∀ d ∈ descs, d.kind = .void → d.sibs = []
   sibCtor : ∀ d ∈ descs, ∀ sid ∈ d.sibs, ∀ sd, findDesc descs sid = some sd → sd.ctor = d.ctor
   identUnique : ∀ d ∈ descs, ∀ d' ∈ descs, d'.ident = d.ident → d' = d
+  /-- a value registered under several interface types: every descriptor of the registration holds it -/
+  instSibs : ∀ d ∈ descs, ∀ v, d.kind = .inst v → ∀ d' ∈ descs, d'.ctor = d.ctor → d'.kind = .inst v
 
 @[simp] theorem ctorCount_nil (c : Nat) : ctorCount [] c = 0 := rfl
 
@@ -187,11 +189,12 @@ structure CreateSing (st st' : State) (d : Desc) (res : Except Err Val) : Prop w
   only : OnlyNew (fun k => ∃ d' ∈ st.descs, d'.ctor = d.ctor ∧ d'.ident = k) st.singletons st'.singletons
   count : ∃ (nested : List Event) (fired : Bool), (∀ e ∈ nested, EventNonSingleton st.descs e) ∧
       (fired = true → ∃ v, res = .ok v) ∧
-      (fired = false → OnlyNew (fun k => k = d.ident ∧ ∃ v, d.kind = .inst v) st.singletons st'.singletons) ∧
+      (fired = false → OnlyNew (fun k => (∃ v, d.kind = .inst v) ∧ ∃ d' ∈ st.descs, d'.ctor = d.ctor ∧ d'.ident = k)
+        st.singletons st'.singletons) ∧
       (∀ c, ctorCount st'.log c = ctorCount st.log c + ctorCount nested c + (if fired = true ∧ d.ctor = c then 1 else 0)) ∧
       ((∃ v, res = .ok v) → (lookup st'.singletons d.ident).isSome ∧
-        ((fired = false ∧ ∃ v, d.kind = .inst v) ∨
-         (fired = true ∧ ∀ d' ∈ st.descs, d'.ctor = d.ctor → (lookup st'.singletons d'.ident).isSome)))
+        ((∃ v, d.kind = .inst v) ∨ fired = true) ∧
+        ∀ d' ∈ st.descs, d'.ctor = d.ctor → (lookup st'.singletons d'.ident).isSome)
 
 theorem findDesc_mem' {descs : List Desc} {id : Nat} {d : Desc} (h : findDesc descs id = some d) : d ∈ descs :=
   List.mem_of_find?_eq_some h
@@ -209,13 +212,42 @@ theorem createInstance_singleton (beh : Beh) (hnil : NoNilOutputs beh) (f : Nat)
   unfold createInstance
   split
   next v hk =>
-    obtain ⟨h1, h1s, _⟩ := setInstance_singleton (fun k => ∃ d' ∈ st.descs, d'.ctor = d.ctor ∧ d'.ident = k)
+    simp only []
+    obtain ⟨h1, h1s, h1ok⟩ := setInstance_singleton (fun k => ∃ d' ∈ st.descs, d'.ctor = d.ctor ∧ d'.ident = k)
       st s d d.ident (.inst v) hl ⟨d, hd, rfl, rfl⟩
-    obtain ⟨h1', _, _⟩ := setInstance_singleton (fun k => k = d.ident ∧ ∃ v, d.kind = .inst v)
-      st s d d.ident (.inst v) hl ⟨rfl, v, hk⟩
-    refine ⟨h1.descs, h1.grows, h1.only, [], false, by simp, by simp, fun _ => h1'.only, ?_, ?_⟩
-    · intro c; simp [h1.log]
-    · intro _; exact ⟨h1s, Or.inl ⟨rfl, v, hk⟩⟩
+    obtain ⟨h1', _, _⟩ := setInstance_singleton
+      (fun k => (∃ v, d.kind = .inst v) ∧ ∃ d' ∈ st.descs, d'.ctor = d.ctor ∧ d'.ident = k)
+      st s d d.ident (.inst v) hl ⟨⟨v, hk⟩, d, hd, rfl, rfl⟩
+    simp only [h1ok]
+    have hsibP : ∀ sd ∈ d.sibs.filterMap (findDesc st.descs),
+        sd.life = .singleton ∧ (fun k => ∃ d' ∈ st.descs, d'.ctor = d.ctor ∧ d'.ident = k) sd.ident := by
+      intro sd hsd
+      obtain ⟨sid, hsid, hf⟩ := List.mem_filterMap.1 hsd
+      refine ⟨by rw [wf.sibLife d hd sid hsid sd hf]; exact hl, sd, findDesc_mem' hf, rw'.sibCtor d hd sid hsid sd hf, rfl⟩
+    have hsibQ : ∀ sd ∈ d.sibs.filterMap (findDesc st.descs), sd.life = .singleton ∧
+        (fun k => (∃ v, d.kind = .inst v) ∧ ∃ d' ∈ st.descs, d'.ctor = d.ctor ∧ d'.ident = k) sd.ident :=
+      fun sd hsd => ⟨(hsibP sd hsd).1, ⟨v, hk⟩, (hsibP sd hsd).2⟩
+    obtain ⟨h2, h2s⟩ := shareAll_singleton (fun k => ∃ d' ∈ st.descs, d'.ctor = d.ctor ∧ d'.ident = k) s d.id
+      (.inst v) (d.sibs.filterMap (findDesc st.descs)) (setInstance st s d d.ident (.inst v)).1 hsibP
+    obtain ⟨h2', _⟩ := shareAll_singleton
+      (fun k => (∃ v, d.kind = .inst v) ∧ ∃ d' ∈ st.descs, d'.ctor = d.ctor ∧ d'.ident = k) s d.id
+      (.inst v) (d.sibs.filterMap (findDesc st.descs)) (setInstance st s d d.ident (.inst v)).1 hsibQ
+    refine ⟨h2.descs.trans h1.descs, h1.grows.trans h2.grows, h1.only.trans h2.only, [], false, by simp, by simp,
+      fun _ => h1'.only.trans h2'.only, ?_, ?_⟩
+    · intro c; simp [h2.log, h1.log]
+    · intro _
+      refine ⟨h2.grows _ h1s, Or.inl ⟨v, hk⟩, ?_⟩
+      intro d' hd' hc
+      rcases rw'.sameCtor d hd d' hd' hc with h | h
+      · subst h; exact h2.grows _ h1s
+      · by_cases hid : d'.id = d.id
+        · have : d' = d := by
+            have h1'' := wf.uniqueIds d' hd'
+            have h2'' := wf.uniqueIds d hd
+            rw [hid, h2''] at h1''
+            injection h1'' with h1''; exact h1''.symm
+          subst this; exact h2.grows _ h1s
+        · exact h2s d' (List.mem_filterMap.2 ⟨d'.id, h, wf.uniqueIds d' hd'⟩) hid
   next hk =>
     simp only []
     have hA := (frame beh f).2.2.2.2.1 st s d.deps [] wf
@@ -281,7 +313,7 @@ theorem createInstance_singleton (beh : Beh) (hnil : NoNilOutputs beh) (f : Nat)
             fun _ => ⟨.unit, by rw [h1ok]; rfl⟩, by simp, ?_, ?_⟩
           · intro c; exact hcnt _ _ c (by rw [h1.log]; rfl) ⟨_, _, _, _, rfl⟩
           · intro _
-            refine ⟨h1s, Or.inr ⟨rfl, ?_⟩⟩
+            refine ⟨h1s, Or.inr rfl, ?_⟩
             intro d' hd' hc
             rcases hsame d' hd' hc with h | h
             · subst h; exact h1s
@@ -315,7 +347,7 @@ theorem createInstance_singleton (beh : Beh) (hnil : NoNilOutputs beh) (f : Nat)
             fun _ => ⟨_, by simp only [hcont, ↓reduceIte, h1ok]; rfl⟩, by simp, ?_, ?_⟩
           · intro c; exact hcnt _ _ c (by rw [h1.log]; rfl) ⟨_, _, _, _, rfl⟩
           · intro _
-            refine ⟨h1s d hdin, Or.inr ⟨rfl, ?_⟩⟩
+            refine ⟨h1s d hdin, Or.inr rfl, ?_⟩
             intro d' hd' hc
             rcases hsame d' hd' hc with h | h
             · subst h; exact h1s d' hdin
@@ -338,7 +370,7 @@ theorem createInstance_singleton (beh : Beh) (hnil : NoNilOutputs beh) (f : Nat)
             (honly0.trans h1.only).trans h2.only, nested, true, hnested, fun _ => ⟨_, rfl⟩, by simp, ?_, ?_⟩
           · intro c; exact hcnt _ _ c (by rw [h2.log, h1.log]; rfl) ⟨_, _, _, _, rfl⟩
           · intro _
-            refine ⟨h2.grows _ h1s, Or.inr ⟨rfl, ?_⟩⟩
+            refine ⟨h2.grows _ h1s, Or.inr rfl, ?_⟩
             intro d' hd' hc
             rcases hsame d' hd' hc with h | h
             · subst h; exact h2.grows _ h1s
@@ -404,9 +436,7 @@ theorem buildInv_step (beh : Beh) (hnil : NoNilOutputs beh) (descs : List Desc) 
     by_cases hcc : fired = true ∧ d.ctor = c
     · obtain ⟨hf, hcc⟩ := hcc
       obtain ⟨v, hv⟩ := hfok hf
-      rcases (hres ⟨v, hv⟩).2 with ⟨hff, _⟩ | ⟨_, hall⟩
-      · rw [hf] at hff; cases hff
-      · exact hall d' (by rw [hde]; exact hd') (by rw [hdc, hcc])
+      exact (hres ⟨v, hv⟩).2.2 d' (by rw [hde]; exact hd') (by rw [hdc, hcc])
     · simp only [hcc, ↓reduceIte, Nat.add_zero] at h1
       exact cs.grows _ (inv.stored c hc h1 d' hd' hdc)
   · intro d0 hd0 hl0 hk0 hs0
@@ -415,10 +445,11 @@ theorem buildInv_step (beh : Beh) (hnil : NoNilOutputs beh) (descs : List Desc) 
     cases hf : fired with
     | false =>
       simp only [Bool.false_eq_true, false_and, ↓reduceIte, Nat.add_zero]
-      rcases hfalse hf d0.ident hs0 with hold | ⟨hid, v, hv⟩
+      rcases hfalse hf d0.ident hs0 with hold | ⟨⟨v, hv⟩, d', hd', hdc, hdi⟩
       · exact inv.counted d0 hd0 hl0 hk0 hold
-      · have : d0 = d := rw'.identUnique d hd d0 hd0 hid
-        subst this; exact absurd hv (hk0 v)
+      · have : d' = d0 := rw'.identUnique d0 hd0 d' (by rw [← hde]; exact hd') hdi
+        subst this
+        exact absurd (rw'.instSibs d hd v hv d' hd0 hdc) (hk0 v)
     | true =>
       rcases cs.only d0.ident hs0 with hold | ⟨d', hd', hdc, hdi⟩
       · have h1 := inv.counted d0 hd0 hl0 hk0 hold
